@@ -59,7 +59,7 @@ func wlOracle(p *spg.Password, kept []string, L int, sep, scheme string) string 
 	}
 	if nsep != 0 && nsep != L-1 {
 		// with a functional separator that can fail some gaps may legitimately be empty
-		if !strings.HasPrefix(sep, "recipe:") {
+		if !strings.HasPrefix(sep, "recipe:") && !strings.HasPrefix(sep, "custom:") {
 			return " STRUCT-FAIL=separator-count"
 		}
 	}
